@@ -11,6 +11,17 @@ CLAIMED = {
         design="DESIGN.md section 4 (C19)"),
 }
 
+CLAIMED["C09"] = dict(
+    text="Proof over the symbolic type universe: the real ResolveBinaryExpressionType (with its helpers and IsComparison) is executed on real type objects whose vector widths and matrix shapes are symbolic integers >= 1, for all 13 operators x 9 x 9 operand shapes; every path is checked against a specification table written from the property text and discharged by z3. End to end (accept/reject, result type, operand conversions in the compiled module) is decided by complete enumeration of the 13 x 14 x 14 spellable combinations on the real compiler.",
+    note="Trusted: CPython, pyvc, z3. PrimitiveType.__eq__ (repr comparison) is cut by structural equality and checked bounded-exhaustively on the 63-type universe (labelled bounded). Comparison operand conversion is only required to be one common type of the operands' shape. Known findings D20a/D20b (vector %, &&, ||; scalar*matrix not lowered).",
+    technique="contract-based deductive verification: symbolic execution of the real typing functions over a symbolic type universe against a spec table (z3); exhaustive finite enumeration end to end",
+    design="DESIGN.md section 4 (C09)")
+CLAIMED["C10"] = dict(
+    text="Proof: IsCompatible/Match/Function.Match are executed on symbolic type shapes (sizes symbolic) and checked against convertibility/score specs by z3; Scope.FindFunction is verified with candidate.Match cut by its contract (arbitrary symbolic scores, 1-4 candidates, scope depth 0-2), which covers every declaration order; the end-to-end wiring (registration before bodies, call lowered to the chosen definition) is decided by complete enumeration of overload sets (<=2 overloads quick, 3 thorough) x argument lists on the real compiler.",
+    note="Trusted: CPython, pyvc, z3; PrimitiveType.__eq__ cut (bounded check). __optional parameters excluded. Candidate count <= 4 in the symbolic ranking obligation.",
+    technique="contract-based deductive verification: symbolic execution with z3 proxies, modular contract cut of candidate.Match, exhaustive finite enumeration end to end",
+    design="DESIGN.md section 4 (C10)")
+
 NOT_YET = "not built yet in this round (design in DESIGN.md section 4); will be claimed when its obligations run"
 NA = {
     "C17": "pickle round trip across processes is the whole property; no contract within reach of the technique can decide it (DESIGN.md section 5)",
